@@ -181,6 +181,9 @@ def mk_phi(items):
             flat |= set(t[1])
         else:
             flat.add(t)
+    if len(flat) > 1:
+        # `Err(e).unwrap()` / `None.unwrap()` panics: no value flows from that arm
+        flat.discard(("opaque", "variant-mismatch"))
     if len(flat) == 1:
         return next(iter(flat))
     return ("phi", frozenset(flat))
